@@ -97,3 +97,18 @@ Example C11_probe_instance :
   try_from_reader_count false {| strict := true |} c11_ty {| data := c11_data; sched := c11_sched |}
   = (Err InvalidData MNotAllBytesRead, Some 10).
 Proof. vm_compute. reflexivity. Qed.
+
+(** The hypothesis [fk <> UnexpectedEof] of [C11_failure] cannot be dropped: an UnexpectedEof
+    raised BY THE READER ITSELF (a genuine failure with its own message, five bytes into an
+    eight-byte integer) is rewritten on every [read_exact] path into the crate's own
+    InvalidData / "Unexpected length of input", so the full statement "a genuine reader failure
+    is returned with its kind and message unchanged" is refuted for this kind (finding F18).
+    Inside the byte loop of a byte vector the same error passes through unchanged. *)
+Example C11_failure_eof_refuted :
+  dec (sched_reader false) {| strict := true |} (TPrim (PInt false W8))
+      {| data := [x01; x02; x03; x04; x05; x06; x07; x08]; sched := [Deliver 4; Interrupt; Deliver 1] ++ Fail UnexpectedEof (MUser 7) :: [] |}
+  = Err InvalidData MUnexpectedLength /\
+  dec (sched_reader false) {| strict := true |} (TSeq SVec (TPrim (PInt false W1)))
+      {| data := [x03; x00; x00; x00; x01; x02; x03]; sched := [Deliver 4; Deliver 1] ++ Fail UnexpectedEof (MUser 7) :: [] |}
+  = Err UnexpectedEof (MUser 7).
+Proof. split; vm_compute; reflexivity. Qed.
